@@ -9,33 +9,33 @@ CLAIM = dict(
     text=("Kernel-checked for EVERY lane count N >= 1, element type and scalar operation f (the lane operation of a context is "
           "modelled as the N-lane map of f): eval_unary and the same-shape eval_binary (packed loop + scalar tail) return exactly "
           "map f / map2 f and no packed load or store leaves its buffer; the 2-d broadcast enumerator binary_2d_simd(_shape) visits "
-          "every output cell exactly once, in row-major order, with the operand cells NumPy's rule designates, all in bounds, so "
-          "eval_binary's BROADCASTED_2D arm equals the broadcast spec — under the hypothesis 'no operand has shape (1,1) while the "
-          "output has several rows', which is necessary (refuted otherwise: out-of-bounds read); the full reduction equals the "
-          "left fold for every associative-commutative f whose identity is the accumulator's start value 0 (refuted for multiply: "
-          "the result is 0); the 2-d vertical reduction core accumulates input row i element-wise into output row i/K in order (no law needed) and the "
-          "horizontal core equals the per-row fold for associative-commutative f with identity (identity padding included). "
-          "Refuted with witnesses: column-major operands, binary operands of different rank or rank != 2 broadcasts "
-          "(evaluator refuses, caller gets zeros), `initial` ignored, negative axis other than -1 (out-of-bounds write). "
+          "every output cell exactly once, in row-major order, with the operand cells NumPy's rule designates, all in bounds, for "
+          "every valid 2-d broadcast pattern ((1,1) operands included since the fix), so eval_binary's BROADCASTED_2D arm equals the "
+          "broadcast spec; the full reduction (accumulator started from the op's identity since the fix) equals the left fold for "
+          "every associative-commutative f with identity; the 2-d vertical reduction core accumulates input row i element-wise into "
+          "output row i/K in order (no law needed) and the horizontal core equals the per-row fold for associative-commutative f with "
+          "identity (identity padding included). Refuted with witnesses: column-major operands, binary operands of different rank or "
+          "rank != 2 broadcasts (evaluator refuses, caller gets zeros), `initial` ignored. "
           "Tied to the C++ on every run: the index enumerators (binary_2d_simd, reduction_2d, outer_simd; N in 4/8/16, every "
           "column count 1..4N+1, all 2-d broadcast patterns) and array::fn(args, ctx) bit for bit against the extracted model for "
-          "x86 SSE, x86 AVX, vector extensions 128/256/512 and SIMDe AVX-512, float and double, sizes 1..4N+1, plus ASan/UBSan builds."),
+          "x86 SSE, x86 AVX, vector extensions 128/256/512 and SIMDe AVX-512, float and double, sizes 1..4N+1, every axis "
+          "(negative ones included), plus ASan/UBSan builds."),
     ref="5.12", technique="Coq proof (loop invariant 'first i results final'; cover-once of the enumerator; fold permutation) + "
                           "differential correspondence of the extracted model with the real evaluators, per context",
     extra="partial: intrinsics are modelled as N-lane maps of f, not verified; n-d reduction reshape and outer are corresponded, "
-          "not proved; matmul is not covered")
+          "not proved; matmul is not covered. Three defects found by this check were repaired in /repo (fix: commits: identity "
+          "start of the full reduction, negative reduction axis, (1,1) operand offset); their inputs stay in the generated streams")
 RULE = ("index level: every column count 1..4N+1 x rows 1..3 x all 16 (lhs,rhs) 2-d broadcast patterns for N in {4,8,16}; reduction "
         "enumerators over 2-d/3-d shapes, every axis; outer enumerators. End to end, per context and dtype (lanes N): unary / binary "
         "same-shape for every element count 1..4N+1 (1-d and folded 2-d/3-d shapes), every 2-d broadcast pattern with cols 1..2N+1, "
         "outer, add/multiply reductions over every axis / None / keepdims (ct and run time) with integer-valued data so that "
-        "re-association is exact; finding streams: (1,1) operands, column-major, rank mismatch / n-d broadcast, initial, negative "
-        "axes, special values. non-trivial = more than N elements or a 2-d+ shape; distinct = distinct case lines")
+        "re-association is exact; streams aimed at past and present defects: (1,1) operands, multiply with a one-element result, "
+        "negative axes (all three repaired), column-major, rank mismatch / n-d broadcast, initial, special values. non-trivial = more than N elements or a 2-d+ shape; distinct = distinct case lines")
 THEOREM_STATUS = {"proved": ["C12_unary_eq_map", "C12_binary_same_eq", "C12_binary_2d_covers_once", "C12_binary_2d_eq_on_domain",
                              "C12_no_UB", "C12_reduce_full_on_domain", "C12_reduce_horizontal_core", "C12_reduce_vertical_core"],
                   "partial": ["reduction_nd_reshape (n-d -> 2-d; the 2-d cores are proved) and eval_outer: modelled and corresponded on every run, "
                               "not proved", "lane operations of the six contexts: modelled as N-lane maps of f, not verified"],
-                  "refuted": ["C12_binary_2d_covers_once_refuted", "C12_reduce_full_refuted", "C12_column_major_refuted",
-                              "C12_binary_refused_refuted", "C12_reduce_initial_refuted", "C12_reduce_negative_axis_refuted"]}
+                  "refuted": ["C12_column_major_refuted", "C12_binary_refused_refuted", "C12_reduce_initial_refuted"]}
 ASSUMPTIONS = ["the lane operation of every context is the N-lane map of the scalar operation (intrinsics / vector extensions / SIMDe "
                "are not verified; compared bit for bit on the explored inputs only)",
                "reductions: 'equal up to re-association' is made precise as equality for associative-commutative f with identity; the "
@@ -260,10 +260,6 @@ def classify(line, impl, spec, model):
     op = t[0]
     same_as_model = _norm(impl) == _norm(model)
     crashed = impl.startswith("trap")
-    if op == "ix_b2dc":
-        o, l, r = [tuple(int(x) for x in a[2:].split(",")) for a in t[2:5]]
-        if o[0] > 1 and ((1, 1) in (l, r)) and same_as_model: return "b2d_operand_1x1_read_by_row"
-        return None
     if op in ("unary", "binary", "outer", "reduce") and t[1] == "S:none": return None
     shp = _arrs(line)
     if op == "unary":
@@ -276,20 +272,9 @@ def classify(line, impl, spec, model):
             return "column_major_walked_as_row_major" if (l[0] > 1 and l[1] > 1 and same_as_model) else None
         if l != r and not (len(l) == 2 and len(r) == 2):
             return "binary_refused_default_output" if same_as_model else None
-        if len(l) == 2 and len(r) == 2 and l != r and max(l[0], r[0]) > 1 and (1, 1) in (l, r) and model == "ub":
-            return "b2d_operand_1x1_read_by_row"
         return None
     if op == "reduce":
-        s = shp[0]; rop = t[3][2:]; axis = t[6]; init = t[8]
-        if axis == "N": out_size = 1
-        else:
-            a = int(axis[2:]); a2 = a + len(s) if a < 0 else a
-            out_size = prod(s) // s[a2]
-        if out_size == 1:
-            if rop == "multiply" and same_as_model: return "reduce_full_starts_from_zero"
-            if init != "N" and same_as_model: return "reduce_initial_ignored"
-            return None
-        if axis != "N" and int(axis[2:]) < -1 and model == "ub": return "reduce_negative_axis_out_of_bounds"
+        init = t[8]
         if init != "N" and same_as_model: return "reduce_initial_ignored"
         return None
     return None
